@@ -58,7 +58,20 @@ type c12Edge struct {
 
 const absent = "\x00absent"
 
+// c12Spellings: how the run names its output path. 0 default, 1 -out <name> in the package directory; 2.. the DEFAULT
+// location spelled differently from the input (absolute, through the parent directory, absolute input + relative -out)
+var c12Spellings = []string{"default", "-out custom_out.go", "-out <abs>/setup.gen.go", "-out ../p/setup.gen.go", "<abs input> -out setup.gen.go"}
+
 func (e *Env) c12Run(base, tag string, v int, out string, custom bool) c12Edge {
+	sp := 0
+	if custom {
+		sp = 1
+	}
+	return e.c12RunSp(base, tag, v, out, sp)
+}
+
+func (e *Env) c12RunSp(base, tag string, v int, out string, sp int) c12Edge {
+	custom := sp == 1
 	root := filepath.Join(base, tag)
 	defer os.RemoveAll(root)
 	// the tree is its own module so that import paths (which end up in the output) do not depend on where it lives
@@ -74,6 +87,14 @@ func (e *Env) c12Run(base, tag string, v int, out string, custom bool) c12Edge {
 	if custom {
 		outName = "custom_out.go"
 		args = []string{"-out", outName, "setup.go"}
+	}
+	switch sp {
+	case 2:
+		args = []string{"-out", filepath.Join(root, "p", "setup.gen.go"), "setup.go"}
+	case 3:
+		args = []string{"-out", "../p/setup.gen.go", "setup.go"}
+	case 4:
+		args = []string{"-out", "setup.gen.go", filepath.Join(root, "p", "setup.go")}
 	}
 	if out != absent {
 		files["p/"+outName] = out
@@ -104,6 +125,9 @@ func c12Corruptions(w string, others map[string]string) map[string]string {
 		"type-error":              w + "\nvar Bad int = \"s\"\n",
 		"redeclares-types":        w + "\ntype S struct{ Z int }\n",
 		"defines-sideways":        w + "\nfunc sideways() {}\n",
+		"blank-lines-around":      "\n\n" + w + "\n\n",
+		"final-newline-doubled":   w + "\n",
+		"crlf-line-ends":          strings.ReplaceAll(w, "\n", "\r\n"),
 	}
 	for id, o := range others {
 		m["stale-"+id] = o
@@ -131,8 +155,8 @@ func init() {
 			customs = []bool{false, true}
 		}
 		e.Rep.Rule("explicit-state search over (setup version, bytes at the output path): versions v1 base, v2 field renamed, v3 :conv naming a function that exists only in v1's stale output, v4 rejected input, v5 second interface, v6/v7 an auto-imported package that moves between the versions, v8/v9 a :conv whose package import is dropped from the setup file but lives on in the stale output; " +
-			"transitions Run, Edit(v'), Crash(k) for EVERY byte offset k of each version's output, Corrupt{empty, header only, package clause only, unbalanced brace, garbage line, duplicated func, wrong package clause, type error, redeclared types, NUL bytes, license prepended, first bytes overwritten, header removed, hand-written file, stale output of every other version}; " +
-			"default output path and (thorough) an -out path in the package directory; invariant on every Run edge: exit status, stdout, stderr and bytes afterwards equal those of the Run edge from (v, absent) (unchanged bytes for a rejected v); " +
+			"transitions Run, Edit(v'), Crash(k) for EVERY byte offset k of each version's output, Corrupt{empty, header only, package clause only, unbalanced brace, garbage line, duplicated func, wrong package clause, type error, redeclared types, NUL bytes, license prepended, first bytes overwritten, header removed, hand-written file, blank lines around, doubled final newline, CRLF line ends, stale output of every other version}; " +
+			"default output path and (thorough) an -out path in the package directory, plus the default location NAMED differently from the input (absolute -out, -out through the parent directory, absolute input with relative -out) over every crash point up to the package clause and every corruption; invariant on every Run edge: exit status, stdout, stderr and bytes afterwards equal those of the Run edge from (v, absent) (unchanged bytes for a rejected v); " +
 			"non-trivial = Run edge whose pre-state output differs from both absent and W(v)")
 		for _, custom := range customs {
 			// reference edges from (v, ⊥)
@@ -287,6 +311,86 @@ func init() {
 				}
 				mu.Unlock()
 			})
+			// the same output location named differently from the input (absolute / through the parent directory): the tool must
+			// still recognise the file at the output path as its own; enumerated over the contents that decide what the loader
+			// sees (every crash point up to the end of the package clause, and every corruption)
+			if !custom {
+				for sp := 2; sp < len(c12Spellings); sp++ {
+					type sjob struct {
+						v int
+						c content
+					}
+					var sjobs []sjob
+					for _, v := range versions {
+						if len(c12Versions[v].files) > 0 && !th {
+							continue
+						}
+						w := W[c12Versions[v].id]
+						clauseEnd := strings.Index(w, "package pkgdemo\n") + len("package pkgdemo\n") + 2
+						for _, c := range contents {
+							if strings.HasPrefix(c.label, "Crash("+c12Versions[v].id+",") && len(c.bytes) > clauseEnd && !(th && len(c.bytes)%16 == 0) {
+								continue
+							}
+							if strings.HasPrefix(c.label, "Crash(") && !strings.HasPrefix(c.label, "Crash("+c12Versions[v].id+",") && !strings.HasPrefix(c.label, "Crash(v1-base,") {
+								continue
+							}
+							if strings.HasPrefix(c.label, "Crash(v1-base,") && c12Versions[v].id != "v1-base" && len(c.bytes) > clauseEnd {
+								continue
+							}
+							sjobs = append(sjobs, sjob{v, c})
+						}
+					}
+					e.Rep.AddStates(len(sjobs))
+					refSp := map[int]c12Edge{}
+					for _, v := range versions {
+						refSp[v] = e.c12RunSp(base, fmt.Sprintf("refsp_%d_%d", v, sp), v, absent, sp)
+						e.Rep.AddTransitions(1)
+					}
+					tool.Parallel(len(sjobs), e.Workers, func(i int) {
+						j := sjobs[i]
+						want := refSp[j.v]
+						judge := func(tag string) string {
+							got := e.c12RunSp(base, tag, j.v, j.c.bytes, sp)
+							wantAfter := want.After
+							if want.Exit != 0 {
+								wantAfter = j.c.bytes
+							}
+							switch {
+							case got.Crashed:
+								return "crash"
+							case got.Exit != want.Exit:
+								return fmt.Sprintf("exit %d, from an empty output path it is %d: %s", got.Exit, want.Exit, clip(got.Stderr, 200))
+							case got.After != wantAfter:
+								return "bytes at the output path differ from the run on an empty output path"
+							case got.Stderr != want.Stderr:
+								return fmt.Sprintf("diagnostics differ: %q vs %q", clip(got.Stderr, 200), clip(want.Stderr, 200))
+							}
+							return ""
+						}
+						tag := fmt.Sprintf("sp_%d_%d_%d", sp, j.v, i)
+						d := judge(tag)
+						if d != "" && (judge(tag+"_c1") != d || judge(tag+"_c2") != d) {
+							e.Rep.Diverged(tag)
+							return
+						}
+						e.Rep.AddTransitions(1)
+						e.Rep.AddEvaluations(1)
+						e.Rep.AddValidated(1)
+						e.Rep.Nontrivial(fmt.Sprintf("sp%d|%d|%s", sp, j.v, j.c.label))
+						if d != "" {
+							kind := j.c.label[:strings.IndexByte(j.c.label, '(')]
+							if kind == "Corrupt" {
+								kind += ":" + j.c.label[strings.LastIndex(j.c.label, ",")+1:len(j.c.label)-1]
+							}
+							mu.Lock()
+							e.Rep.Report(report.Finding{Key: fmt.Sprintf("C12|spelled-output-path|version=%s|pre=%s|spelling=%s", c12Versions[j.v].id, kind, c12Spellings[sp]), CellID: fmt.Sprintf("%s_after_%s_sp%d", c12Versions[j.v].id, j.c.label, sp), What: d,
+								Replay: &report.Replay{Kind: "history", Files: map[string]string{"p/setup.go": c12Versions[j.v].src, "p/setup.gen.go": j.c.bytes},
+									Steps: []string{"state: setup " + c12Versions[j.v].id + ", output path holds " + j.c.label, "cwd=<root>/p", "convergen " + c12Spellings[sp]}}})
+							mu.Unlock()
+						}
+					})
+				}
+			}
 			// Run∘Run = Run, asserted directly
 			for _, v := range versions {
 				if w, ok := W[c12Versions[v].id]; ok {
